@@ -16,7 +16,11 @@ import (
 
 func runHistory(hs uint64, steps int, profile string, wr *bufio.Writer) {
 	enc := json.NewEncoder(wr)
-	c := sim.NewChain(sim.GenesisForProfile(profile, hs))
+	c, rejected := sim.TryNewChain(sim.GenesisForProfile(profile, hs))
+	if rejected != "" {
+		// the application refuses this genesis: there is no chain, hence no history
+		return
+	}
 	w := sim.NewWorld(c)
 	g := sim.NewGen(w, hs, profile)
 	enc.Encode(sim.M{"genesis": sim.M{"env": w.EnvJSON(), "state": w.Dump(w.C.Ctx())}, "hist": hs, "profile": profile})
